@@ -16,6 +16,13 @@
 //!     run, after its guard was dropped and the arena went to other threads; by all threads' blocks at
 //!     the end of the round; and once more before the next reset), lies inside the arena it was
 //!     allocated from and in no other arena, and the arena identity of a guard never changes;
+//!   * poisoning: `get_with_size(huge)` / `get_with_capacity(huge)` (under `catch_unwind`) panic with "capacity
+//!     overflow" INSIDE the critical section when no idle arena exists, which poisons the pool mutex; the run
+//!     continues on the poisoned pool and every oracle keeps running.  In addition: a guard drop must enter the
+//!     critical section (new lock ticket) and must not release anything to the base allocator (per-thread
+//!     ledger around `drop(guard)`; no release at all between resets); the number of idle arenas one critical
+//!     section leaves behind (guard drop: +1, reusing get: -1, else 0) is what the next one — and finally
+//!     `pool.bumps().len()` — finds;
 //!   * `reset` leaves every arena with exactly one chunk and nothing allocated, `reset_to_start` leaves
 //!     the chunk count unchanged and nothing allocated, dropping the pool returns every chunk to the
 //!     base allocator (ledger of the counting allocator; forgotten guards keep theirs).
@@ -37,7 +44,7 @@ use std::sync::{Barrier, Mutex};
 
 use bump_scope::alloc::{AllocError, Allocator, Global};
 use bump_scope::settings::{BumpAllocatorSettings, BumpSettings};
-use bump_scope::verif_hooks::{last_pool_lock, reset_tickets};
+use bump_scope::verif_hooks::last_pool_lock;
 use bump_scope::{BaseAllocator, BumpPool, BumpPoolGuard};
 use verif_harness::{Rng, seed};
 
@@ -49,10 +56,13 @@ const PROP: &str = "C19";
 static CA_OUTSTANDING: AtomicUsize = AtomicUsize::new(0);
 static CA_ALLOCS: AtomicUsize = AtomicUsize::new(0);
 static CA_FAILS: AtomicUsize = AtomicUsize::new(0);
+static CA_DEALLOCS: AtomicUsize = AtomicUsize::new(0);
 
 thread_local! {
     /// the calling thread's next base-allocator request fails (armed only around one `try_get*`)
     static FAIL_ARMED: Cell<bool> = const { Cell::new(false) };
+    /// blocks the calling thread returned to the base allocator
+    static TL_DEALLOCS: Cell<usize> = const { Cell::new(0) };
 }
 
 /// counting allocator over `std::alloc::System`: ledger of outstanding blocks, garbage-filled fresh
@@ -82,6 +92,8 @@ unsafe impl Allocator for CA {
             System.dealloc(ptr.as_ptr(), l);
         }
         CA_OUTSTANDING.fetch_sub(1, SeqCst);
+        CA_DEALLOCS.fetch_add(1, SeqCst);
+        TL_DEALLOCS.with(|c| c.set(c.get() + 1));
     }
 }
 
@@ -106,6 +118,7 @@ impl PoolBase for Global {
 enum Kind {
     Get,
     GetFail,
+    GetPanic, // the constructor panicked inside the critical section (capacity overflow): mutex poisoned
     Put,
     Forget,
     Alloc,
@@ -119,7 +132,7 @@ struct Ev {
     gid: usize,
     ident: usize, // address of the first chunk of the arena behind the guard (0: none)
     idle_seen: usize,
-    create_ok: bool,
+    create: char, // fate of a construction, should one be needed: '1' succeeds, '0' refused, 'p' panics
     tag: usize,
     variant: u8,
 }
@@ -185,7 +198,11 @@ struct Totals {
     cases: u64,
     rounds: u64,
     ops: HashMap<&'static str, u64>,
-    variants: [u64; 6],
+    variants: [u64; 10],
+    get_panics: u64,
+    puts_after_poison: u64, // guard drops while the mutex was poisoned
+    poisoned_cases: u64,
+    overflow_reused: u64,   // overflowing get* that found an idle arena (nothing constructed, nothing panics)
     creates: u64,
     reuses: u64,
     handovers: u64, // a `get` that received an arena last held by a guard of ANOTHER thread
@@ -221,6 +238,8 @@ struct CaseState {
     leaked: Vec<(usize, usize, Vec<(usize, usize)>)>, // (identity, chunk count, content ranges) of forgotten guards
     last_ticket: Option<usize>,
     forgotten: HashSet<usize>,
+    poisoned: bool,                            // a get* panicked inside the critical section
+    expect_idle: Option<(usize, &'static str)>, // idle arenas the previous critical section left behind, and what it was
 }
 
 /// print what the case produced so far (a later crash inside the real crate must not swallow it)
@@ -245,7 +264,25 @@ fn linearise(evs: &mut Vec<Ev>, cs: &mut CaseState, out: &mut String, t: &mut To
     let mut switches = 0;
     let mut prev_thread = usize::MAX;
     for e in evs.iter() {
-        if matches!(e.kind, Kind::Get | Kind::GetFail | Kind::Put) {
+        if e.kind == Kind::Put && e.idle_seen == usize::MAX {
+            oracle(out, t, &format!("dropping guard {} did not enter the pool's critical section: its arena {:#x} was not returned to the pool{}", e.gid, e.ident, if cs.poisoned { " [the pool mutex is poisoned]" } else { "" }));
+            cs.owned.remove(&e.ident);
+            cs.live = cs.live.saturating_sub(1);
+            let _ = writeln!(out, "op put {} => not-returned", e.gid);
+            t.op("put");
+            continue;
+        }
+        if matches!(e.kind, Kind::Get | Kind::GetFail | Kind::GetPanic | Kind::Put) {
+            // what one critical section leaves behind is what the next one finds (the hook reports the
+            // length of the vector under the lock): a guard drop adds one idle arena, a get that reuses
+            // takes one, everything else leaves the count alone
+            if let Some((n, what)) = cs.expect_idle {
+                if n != e.idle_seen {
+                    oracle(out, t, &format!(
+                        "after {what} the pool must hold {n} idle arenas but the next critical section (ticket {}) saw {}{}",
+                        e.key.0, e.idle_seen, if cs.poisoned { " [the pool mutex is poisoned]" } else { "" }));
+                }
+            }
             if cs.last_ticket.is_some_and(|l| l >= e.key.0) {
                 oracle(out, t, &format!("lock ticket {} is not unique/increasing (two critical sections overlapped?)", e.key.0));
             }
@@ -258,6 +295,7 @@ fn linearise(evs: &mut Vec<Ev>, cs: &mut CaseState, out: &mut String, t: &mut To
         match e.kind {
             Kind::Get => {
                 let fresh = !cs.canon.contains_key(&e.ident);
+                cs.expect_idle = Some((if fresh { e.idle_seen } else { e.idle_seen.saturating_sub(1) }, if fresh { "a get that created an arena" } else { "a get that reused an arena" }));
                 if fresh {
                     cs.canon.insert(e.ident, cs.n_created);
                     cs.n_created += 1;
@@ -267,8 +305,11 @@ fn linearise(evs: &mut Vec<Ev>, cs: &mut CaseState, out: &mut String, t: &mut To
                     }
                 } else {
                     t.reuses += 1;
-                    if !e.create_ok {
+                    if e.create != '1' {
                         t.fail_armed_but_reused += 1;
+                    }
+                    if e.variant >= 6 {
+                        t.overflow_reused += 1;
                     }
                     if e.idle_seen == 0 {
                         oracle(out, t, &format!("guard {} got an arena that already existed although the critical section saw an empty vector", e.gid));
@@ -286,20 +327,36 @@ fn linearise(evs: &mut Vec<Ev>, cs: &mut CaseState, out: &mut String, t: &mut To
                 cs.live += 1;
                 cs.peak = cs.peak.max(cs.live);
                 let cid = cs.canon[&e.ident];
-                let _ = writeln!(out, "op get {} {} => arena {} {} idle={}", e.gid, e.create_ok as u8, cid, if fresh { "new" } else { "reused" }, e.idle_seen);
+                let _ = writeln!(out, "op get {} {} => arena {} {} idle={}", e.gid, e.create, cid, if fresh { "new" } else { "reused" }, e.idle_seen);
                 t.variants[e.variant as usize] += 1;
                 t.op("get");
             }
+            Kind::GetPanic => {
+                t.get_panics += 1;
+                cs.poisoned = true;
+                cs.expect_idle = Some((e.idle_seen, "a get whose constructor panicked"));
+                if e.idle_seen != 0 {
+                    oracle(out, t, &format!("get* of guard {} panicked in the constructor although {} idle arenas existed", e.gid, e.idle_seen));
+                }
+                let _ = writeln!(out, "op get {} {} => panic idle={}", e.gid, e.create, e.idle_seen);
+                t.variants[e.variant as usize] += 1;
+                t.op("get-panic");
+            }
             Kind::GetFail => {
                 t.get_fails += 1;
+                cs.expect_idle = Some((e.idle_seen, "a get whose construction was refused"));
                 if e.idle_seen != 0 {
                     oracle(out, t, &format!("try_get* of guard {} failed although {} idle arenas existed", e.gid, e.idle_seen));
                 }
-                let _ = writeln!(out, "op get {} {} => err idle={}", e.gid, e.create_ok as u8, e.idle_seen);
+                let _ = writeln!(out, "op get {} {} => err idle={}", e.gid, e.create, e.idle_seen);
                 t.variants[e.variant as usize] += 1;
                 t.op("get-fail");
             }
             Kind::Put => {
+                cs.expect_idle = Some((e.idle_seen + 1, "dropping a guard"));
+                if cs.poisoned {
+                    t.puts_after_poison += 1;
+                }
                 if cs.owned.remove(&e.ident) != Some(e.gid) {
                     oracle(out, t, &format!("guard {} returned arena {:#x} which the log does not show as its own", e.gid, e.ident));
                 }
@@ -408,6 +465,7 @@ struct Shared<'p, A: PoolBase, S: BumpAllocatorSettings> {
     barrier: Barrier,
     max_hold: usize,
     allow_forget: bool,
+    allow_overflow: bool,
 }
 
 #[derive(Default)]
@@ -437,23 +495,54 @@ fn violation<A: PoolBase, S: BumpAllocatorSettings>(sh: &Shared<'_, A, S>, msg: 
 }
 
 fn do_get<'p, A: PoolBase, S: BumpAllocatorSettings>(sh: &Shared<'p, A, S>, tidx: usize, rng: &mut Rng, w: &mut WorkerOut<'p>) -> Option<Held<'p, A, S>> {
-    let variant = rng.below(6) as u8;
+    // 6..=9: a size / layout whose chunk size computation overflows.  The panicking variants raise
+    // "capacity overflow" inside `Bump::generic_with_*_in`, i.e. while the lock guard temporary of
+    // `match self.lock().pop() { … }` is alive — IF no idle arena could be popped.  That poisons the mutex.
+    let variant = if sh.allow_overflow && rng.chance(1, 9) { 6 + rng.below(4) as u8 } else { rng.below(6) as u8 };
     let fallible = variant % 2 == 1;
-    let arm = fallible && A::INSTRUMENTED && rng.chance(1, 5);
+    let arm = variant < 6 && fallible && A::INSTRUMENTED && rng.chance(1, 5);
     let size = *rng.pick(&[0usize, 1, 64, 512, 513, 1000, 4096, 10000]);
     let layout = Layout::from_size_align(*rng.pick(&[0usize, 1, 24, 600, 3000]), 1 << rng.below(7)).unwrap();
+    // (a chunk of exactly 2^63-16 bytes is still a valid `Layout`: that request would be passed on to the base
+    // allocator and its failure ABORTS the panicking variants; only requests beyond that overflow)
+    let huge_size = *rng.pick(&[usize::MAX, usize::MAX - 4096, (isize::MAX as usize) + 4098]);
+    let huge_align = 1usize << rng.below(5);
+    let huge_layout = Layout::from_size_align((isize::MAX as usize) - (huge_align - 1), huge_align).unwrap();
+    let create = match variant {
+        6 | 8 => 'p',
+        7 | 9 => '0',
+        _ if arm => '0',
+        _ => '1',
+    };
     let gid = sh.next_gid.fetch_add(1, SeqCst);
     FAIL_ARMED.with(|f| f.set(arm));
-    let res: Result<BumpPoolGuard<'p, A, S>, AllocError> = match variant {
-        0 => Ok(sh.pool.get()),
-        1 => sh.pool.try_get(),
-        2 => Ok(sh.pool.get_with_size(size)),
-        3 => sh.pool.try_get_with_size(size),
-        4 => Ok(sh.pool.get_with_capacity(layout)),
-        _ => sh.pool.try_get_with_capacity(layout),
+    let pool = sh.pool;
+    // Ok(Ok(guard)) | Ok(Err(AllocError)) | Err(panic payload)
+    let res: std::thread::Result<Result<BumpPoolGuard<'p, A, S>, AllocError>> = match variant {
+        0 => Ok(Ok(pool.get())),
+        1 => Ok(pool.try_get()),
+        2 => Ok(Ok(pool.get_with_size(size))),
+        3 => Ok(pool.try_get_with_size(size)),
+        4 => Ok(Ok(pool.get_with_capacity(layout))),
+        5 => Ok(pool.try_get_with_capacity(layout)),
+        6 => catch_unwind(AssertUnwindSafe(|| Ok(pool.get_with_size(huge_size)))),
+        7 => Ok(pool.try_get_with_size(huge_size)),
+        8 => catch_unwind(AssertUnwindSafe(|| Ok(pool.get_with_capacity(huge_layout)))),
+        _ => Ok(pool.try_get_with_capacity(huge_layout)),
     };
     let (ticket, idle_seen) = last_pool_lock();
     FAIL_ARMED.with(|f| f.set(false));
+    let res = match res {
+        Ok(r) => r,
+        Err(payload) => {
+            let msg = payload.downcast_ref::<String>().cloned().or_else(|| payload.downcast_ref::<&str>().map(|s| s.to_string())).unwrap_or_default();
+            if !msg.contains("capacity overflow") {
+                violation(sh, format!("get* of guard {gid} panicked with an unexpected message: {msg}"));
+            }
+            w.evs.push(Ev { key: (ticket, 0), thread: tidx, kind: Kind::GetPanic, gid, ident: 0, idle_seen, create, tag: 0, variant });
+            return None;
+        }
+    };
     match res {
         Ok(guard) => {
             let ident = ident_of(&guard);
@@ -463,11 +552,11 @@ fn do_get<'p, A: PoolBase, S: BumpAllocatorSettings>(sh: &Shared<'p, A, S>, tidx
             if let Some(other) = sh.reg.acquire(ident, gid) {
                 violation(sh, format!("guards {other} and {gid} are live at the same time and refer to the same arena {ident:#x} (concurrent registry)"));
             }
-            w.evs.push(Ev { key: (ticket, 0), thread: tidx, kind: Kind::Get, gid, ident, idle_seen, create_ok: !arm, tag: 0, variant });
+            w.evs.push(Ev { key: (ticket, 0), thread: tidx, kind: Kind::Get, gid, ident, idle_seen, create, tag: 0, variant });
             Some(Held { gid, guard, ident, t_get: ticket, seq: 0, from_thread: tidx })
         }
         Err(_) => {
-            w.evs.push(Ev { key: (ticket, 0), thread: tidx, kind: Kind::GetFail, gid, ident: 0, idle_seen, create_ok: !arm, tag: 0, variant });
+            w.evs.push(Ev { key: (ticket, 0), thread: tidx, kind: Kind::GetFail, gid, ident: 0, idle_seen, create, tag: 0, variant });
             None
         }
     }
@@ -519,7 +608,7 @@ where
     }
     h.seq += 1;
     let key = (h.t_get, h.seq);
-    w.evs.push(Ev { key, thread: tidx, kind: Kind::Alloc, gid: h.gid, ident: now, idle_seen: 0, create_ok: true, tag, variant: 0 });
+    w.evs.push(Ev { key, thread: tidx, kind: Kind::Alloc, gid: h.gid, ident: now, idle_seen: 0, create: '1', tag, variant: 0 });
     w.blocks.push(Blk { raw: RawBlk { tag, addr, len, key, ident: now }, data });
 }
 
@@ -534,16 +623,29 @@ fn do_put<'p, A: PoolBase, S: BumpAllocatorSettings>(sh: &Shared<'p, A, S>, tidx
     if h.from_thread != tidx {
         w.exchanged += 1;
     }
-    let Held { gid, guard, ident, .. } = h;
+    let Held { gid, guard, ident, t_get: h_t_get, .. } = h;
+    let ticket_before = last_pool_lock().0;
+    let deallocs_before = TL_DEALLOCS.with(|c| c.get());
     drop(guard);
     let (ticket, idle_seen) = last_pool_lock();
-    w.evs.push(Ev { key: (ticket, 0), thread: tidx, kind: Kind::Put, gid, ident, idle_seen, create_ok: true, tag: 0, variant: 0 });
+    let released = TL_DEALLOCS.with(|c| c.get()) - deallocs_before;
+    if released != 0 {
+        violation(sh, format!("dropping guard {gid} released {released} chunks of arena {ident:#x} to the base allocator (a guard drop must return the arena to the pool, allocations with the pool's lifetime point into it)"));
+    }
+    if ticket == ticket_before {
+        // no critical section was entered: the arena cannot have been returned.  The event has no ticket of its own;
+        // it is placed right after this thread's previous critical section (idle_seen = usize::MAX marks it)
+        let key = (ticket_before.max(h_t_get), u32::MAX - 1);
+        w.evs.push(Ev { key, thread: tidx, kind: Kind::Put, gid, ident, idle_seen: usize::MAX, create: '1', tag: 0, variant: 0 });
+        return;
+    }
+    w.evs.push(Ev { key: (ticket, 0), thread: tidx, kind: Kind::Put, gid, ident, idle_seen, create: '1', tag: 0, variant: 0 });
 }
 
 fn do_forget<'p, A: PoolBase, S: BumpAllocatorSettings>(tidx: usize, h: Held<'p, A, S>, w: &mut WorkerOut<'p>) {
     // the registry entry stays set for ever: nobody else may ever get this arena
     w.leaked.push((h.ident, h.guard.stats().count(), ranges_of(h.guard.stats())));
-    w.evs.push(Ev { key: (h.t_get, u32::MAX), thread: tidx, kind: Kind::Forget, gid: h.gid, ident: h.ident, idle_seen: 0, create_ok: true, tag: 0, variant: 0 });
+    w.evs.push(Ev { key: (h.t_get, u32::MAX), thread: tidx, kind: Kind::Forget, gid: h.gid, ident: h.ident, idle_seen: 0, create: '1', tag: 0, variant: 0 });
     std::mem::forget(h.guard);
 }
 
@@ -668,7 +770,8 @@ where
     let _ = writeln!(cx.out, "pool-new cfg={cfg} base={} threads={threads} rounds={rounds} seed={case_seed}", A::NAME);
     cx.t.cases += 1;
     cx.t.max_threads = cx.t.max_threads.max(threads);
-    reset_tickets();
+    // tickets are NOT reset between cases: the crew threads keep their thread-local "last ticket", and a guard drop
+    // is recognised as having entered the critical section by a ticket different from the thread's previous one
     let outstanding0 = CA_OUTSTANDING.load(SeqCst);
     let next_gid = AtomicUsize::new(0);
     let next_tag = AtomicUsize::new(1);
@@ -683,6 +786,8 @@ where
         leaked: Vec::new(),
         last_ticket: None,
         forgotten: HashSet::new(),
+        poisoned: false,
+        expect_idle: None,
     };
     let mut pool: BumpPool<A, S> = BumpPool::new_in(A::default());
     let mut carried: Vec<RawBlk> = Vec::new(); // blocks of earlier rounds since the last reset
@@ -692,6 +797,8 @@ where
         let max_hold = if threaded { rng.range(1, 4) } else { rng.range(1, 12) } as usize;
         let mut evs: Vec<Ev> = Vec::new();
         let mut raws: Vec<RawBlk> = Vec::new();
+        let deallocs_round0 = CA_DEALLOCS.load(SeqCst);
+        let mut pending: Vec<String> = Vec::new(); // oracle messages of this round, printed after its history
         {
             let sh = Shared {
                 pool: &pool,
@@ -703,6 +810,7 @@ where
                 barrier: Barrier::new(threads),
                 max_hold,
                 allow_forget: rng.chance(1, 4),
+                allow_overflow: rng.chance(1, 2),
             };
             let seeds: Vec<u64> = (0..threads).map(|_| rng.next()).collect();
             let mut outs: Vec<WorkerOut<'_>> = Vec::new();
@@ -723,13 +831,14 @@ where
                 for b in &o.blocks {
                     cx.t.rereads += 1;
                     if !intact(b.raw.tag, b.data) {
-                        oracle(cx.out, cx.t, &format!("block {} ({} bytes) was modified after its guard was dropped (end of round {round})", b.raw.tag, b.raw.len));
+                        pending.push(format!("block {} ({} bytes) was modified after its guard was dropped (end of round {round})", b.raw.tag, b.raw.len));
                     }
                 }
             }
-            for msg in sh.violations.lock().unwrap_or_else(|e| e.into_inner()).drain(..) {
-                oracle(cx.out, cx.t, &msg);
-            }
+            // (what the threads noticed while running comes first)
+            let mut noticed: Vec<String> = sh.violations.lock().unwrap_or_else(|e| e.into_inner()).drain(..).collect();
+            noticed.append(&mut pending);
+            pending = noticed;
             for mut o in outs {
                 evs.append(&mut o.evs);
                 raws.extend(o.blocks.iter().map(|b| b.raw.clone()));
@@ -740,6 +849,9 @@ where
             }
         } // all `&'pool` references end here
         linearise(&mut evs, &mut cs, cx.out, cx.t);
+        for msg in pending.iter().take(40) {
+            oracle(cx.out, cx.t, msg);
+        }
         carried.append(&mut raws);
         carried.sort_by_key(|b| b.key);
 
@@ -748,6 +860,14 @@ where
         let idents: Vec<usize> = bumps.iter().map(|b| b.stats().small_to_big().next().map_or(0, |c| c.chunk_start().as_ptr() as usize)).collect();
         let n_idle = idents.len();
         cx.t.max_arenas = cx.t.max_arenas.max(cs.n_created);
+        if let Some((n, what)) = cs.expect_idle {
+            if n != n_idle {
+                oracle(cx.out, cx.t, &format!("after {what} the pool must hold {n} idle arenas but pool.bumps().len() is {n_idle}{}", if cs.poisoned { " [the pool mutex is poisoned]" } else { "" }));
+            }
+        }
+        if A::INSTRUMENTED && CA_DEALLOCS.load(SeqCst) != deallocs_round0 {
+            oracle(cx.out, cx.t, &format!("{} chunks were released to the base allocator while the pool was in use (no reset, no drop of the pool){}", CA_DEALLOCS.load(SeqCst) - deallocs_round0, if cs.poisoned { " [the pool mutex is poisoned]" } else { "" }));
+        }
         if n_idle + cs.leaked.len() != cs.n_created {
             oracle(cx.out, cx.t, &format!("pool holds {n_idle} arenas (+{} forgotten) but {} distinct arena identities were handed out: an arena was lost or duplicated", cs.leaked.len(), cs.n_created));
         }
@@ -795,6 +915,7 @@ where
         let cont: Vec<String> = (0..n_idle).map(|i| format!("{}:[{}]", cids[i], per[i].iter().map(|x| x.to_string()).collect::<Vec<_>>().join(","))).collect();
         let _ = writeln!(cx.out, "q contents => contents {}", cont.join(" "));
         let _ = writeln!(cx.out, "q live => live {} created {}", cs.leaked.len(), cs.n_created);
+        let _ = writeln!(cx.out, "q poisoned => poisoned {}", cs.poisoned as u8);
 
         flush_out(cx.out);
         // ---- what happens between rounds
@@ -855,6 +976,9 @@ where
             }
             _ => {}
         }
+    }
+    if cs.poisoned {
+        cx.t.poisoned_cases += 1;
     }
     let n_idle = pool.bumps().len();
     drop(pool);
@@ -925,6 +1049,10 @@ fn main() {
     println!(
         "# get-variants get={} try_get={} get_with_size={} try_get_with_size={} get_with_capacity={} try_get_with_capacity={}",
         t.variants[0], t.variants[1], t.variants[2], t.variants[3], t.variants[4], t.variants[5]
+    );
+    println!(
+        "# overflow get_with_size(huge)={} try_get_with_size(huge)={} get_with_capacity(huge)={} try_get_with_capacity(huge)={} panicked(mutex poisoned)={} found-idle-arena-instead={} poisoned-cases={} guard-drops-while-poisoned={}",
+        t.variants[6], t.variants[7], t.variants[8], t.variants[9], t.get_panics, t.overflow_reused, t.poisoned_cases, t.puts_after_poison
     );
     println!(
         "# branches created={} reused={} handover-to-other-thread={} construction-failed={} failure-armed-but-reused={} forgotten={} guards-moved-between-threads={} resets={} rewinds={}",
